@@ -121,6 +121,15 @@ def run(ctx):
     def key_of(x):
         return (str(x.dtype.kind), tuple(x.tolist()))
 
+    def export(path, append):
+        try:
+            if problem is not None:
+                problem.to_hdf(path, append=append)
+            else:
+                db.to_hdf(path, append=append, hdf_node_path=node)
+        except Exception as exc:  # noqa: BLE001
+            ctx.violate("C11.export_raises", f"{sig} raised={type(exc).__name__}", f"export (append={append}) raised {exc!r}; ops={ops}")
+
     def reload(path, what):
         try:
             return Database.from_hdf(path, hdf_node_path=node)
@@ -178,10 +187,7 @@ def run(ctx):
                 if append and exported[f]:
                     n_append_after_export += 1
                     ctx.probe("append_export_after_earlier_export")
-                if problem is not None:
-                    problem.to_hdf(f, append=append)
-                else:
-                    db.to_hdf(f, append=append, hdf_node_path=node)
+                export(f, append)
                 exported[f] = True
                 compare(f, "export")
             elif k == 4:
@@ -191,17 +197,14 @@ def run(ctx):
                 f = done[t.choice(len(done), "reload_which")]
                 ops.append(("reload", os.path.basename(f)))
                 # only the most recently exported state is on file: compare after a fresh append export
-                if problem is not None:
-                    problem.to_hdf(f, append=True)
-                else:
-                    db.to_hdf(f, append=True, hdf_node_path=node)
+                export(f, True)
                 compare(f, "reload")
             else:
                 done = [f for f in files if exported[f] is True]
                 if not done or problem is not None:
                     continue
                 f = done[0]
-                db.to_hdf(f, append=True, hdf_node_path=node)
+                export(f, True)
                 ops.append(("restart", os.path.basename(f)))
                 db = reload(f, "restart")
                 ctx.fire("restart_from_file")
@@ -209,16 +212,10 @@ def run(ctx):
     done = [f for f in files if exported[f] is True]
     if done:
         f = done[0]
-        if problem is not None:
-            problem.to_hdf(f, append=True)
-        else:
-            db.to_hdf(f, append=True, hdf_node_path=node)
+        export(f, True)
         inc = dump(reload(f, "final export"))
         single = str(ctx.scratch / "single.h5")
-        if problem is not None:
-            problem.to_hdf(single, append=False)
-        else:
-            db.to_hdf(single, append=False, hdf_node_path=node)
+        export(single, False)
         one = dump(reload(single, "single export"))
         ctx.event("final", len(inc))
         if inc != one:
